@@ -23,7 +23,8 @@ FUNCS = ["lower", "upper", "initcap", "length", "to_base64", "from_base64", "con
          "stddev_pop", "var_samp"]
 BAD_ARGS = ["x", "''", "-1", "0", "1.5", "99999999999999999999", "-2147483648", "2147483648", "name", "size", "'%'",
             "'%.99999999999'", "'%.3 q'", "'2024-13-45'", "'2024-02-29 25:61:61'", "'-x'", "'+999'", "modified",
-            "'٣'", "-9223372036854775808", "9223372036854775807", "'NaN'", "'inf'", "1e400", "''''"]
+            "'٣'", "-9223372036854775808", "9223372036854775807", "'NaN'", "'inf'", "1e400", "''''", "'62:36'", "'691PM'", "'23.68'",
+            "'next friday'"]
 
 
 # literals at and beyond the edges of what a typed column can interpret
@@ -31,7 +32,8 @@ EDGE_LITS = ["16777216t", "18446744073709551615k", "18446744073709551616", "1844
              "17179869184g", "18014398509481984kib", "99999999999999999999g", "1e30k", "1e400", "-1k", "1.5.5m", "0x10", "k", "mb",
              "1 k", "٣k", "9999-12-31", "0000-01-01", "2024-02-30", "2024-12-31 24:00:00", "262143-01-01", "+99999999999",
              "-99999999999", "yesterdayy", "tru", "2", "-0", "1e5", "00000000000000000000001", "4294967296", "0o777", "-rwx",
-             "rwxrwxrwxrwx", "%", "[", "(", "a{99999}", "\\", "*{", "?{1,2}"]
+             "rwxrwxrwxrwx", "%", "[", "(", "a{99999}", "\\", "*{", "?{1,2}",
+             "62:36", "691PM", "23.68", "1537.5", "25 dec 2024", "next friday", "99/99/9999", "12:60am", "0:0:61", "31 feb", "-11.70", "24:00"]
 EDGE_COLS = ["size", "size", "size", "fsize", "modified", "is_dir", "mode", "name", "uid", "hardlinks", "line_count", "path", "ext",
              "user_read", "accessed", "length(name)", "size + 1", "is_symlink", "blocks"]
 EDGE_OPS = ["=", "!=", ">", "<", ">=", "<=", "===", "like", "=~", "between", "in", "not like"]
@@ -66,6 +68,13 @@ def gen_argv(r):
     if k < 8:
         ws = gen.token_soup(r, r.range(1, 16))
         return ("soup", [" ".join(ws)] if r.chance(1, 2) else ws)
+    if r.chance(1, 5):
+        # roots at the edge: malformed patterns under the regex root option, options without values, odd paths
+        root = r.choice(["d[", "(*", "d1*[", "*", "?", "[", "d{2", "d1", ".", "./d1/..", "nowhere", "d1/a.txt", "", "~nobody", "**"])
+        opts = " ".join(r.choice(["regex", "regexp", "rx", "depth", "depth x", "mindepth -1", "maxdepth 99999999999", "sym", "arc", "dfs",
+                                  "bfs", "git", "nogit", "depth 1"]) for _ in range(r.range(0, 3)))
+        q = "name from %s %s" % (("'%s'" % root) if (root == "" or r.chance(1, 2)) else root, opts)
+        return ("edge-root", [q] if r.chance(1, 2) else q.split())
     if r.chance(1, 2):
         col, op, lit = r.choice(EDGE_COLS), r.choice(EDGE_OPS), r.choice(EDGE_LITS)
         if " " in lit or lit[0] in "(%[*?\\" or r.chance(1, 3):
@@ -156,6 +165,20 @@ def run(ctx):
                 argv = k["witness"]["argv"]
                 ctx.case(("c",) + tuple(argv))
                 cli_case(ctx, root, scratch, "corpus:" + k["id"], argv, False)
+        # every scalar function on every ill-typed / out-of-range argument (one argument, systematically; two and three
+        # arguments at random), in the select list and in a condition
+        fr = ctx.rng.fork()
+        calls = ["%s(%s)" % (f, a) for f in FUNCS for a in BAD_ARGS + ["size - 100", "0 - size", "size * 1.5", "1e30", "'-inf'"]]
+        for f in FUNCS:
+            for _ in range(4 if quick else 40):
+                calls.append("%s(%s)" % (f, ", ".join(fr.choice(BAD_ARGS + ["size", "name", "0 - size"]) for _ in range(fr.range(2, 3)))))
+        if quick:
+            calls = [c for j, c in enumerate(calls) if (j + ctx.seed) % 2 == 0]
+        for call in calls:
+            argv = ["%s, name from ." % call] if fr.chance(3, 4) else ["name from . where %s %s 1" % (call, fr.choice(["=", ">", "like"]))]
+            ctx.case(("f",) + tuple(argv))
+            ctx.hist("argv_kind", "func-sweep")
+            cli_case(ctx, root, scratch, "func-sweep", argv, False)
         for i in range(n_cli):
             r = ctx.rng.fork()
             kind, argv = gen_argv(r)
